@@ -34,6 +34,7 @@ def main():
     ap.add_argument("--checks")
     ap.add_argument("--tier", default="quick")
     ap.add_argument("--src")
+    ap.add_argument("--tag", default="")
     a = ap.parse_args()
     src = a.src or f"/tmp/seedout-{a.prop}"
     checks = a.checks.split(",") if a.checks else [a.prop]
@@ -109,7 +110,7 @@ def main():
             shutil.rmtree(outdir, ignore_errors=True)
             confirmed = meta.get("compiles") and meta.get("existing_suite_passes") and ok0 and not ok1
             meta["confirmed"] = bool(confirmed)
-            dst = os.path.join(VERIF, "seeded", f"{a.prop}-{n}")
+            dst = os.path.join(VERIF, "seeded", f"{a.prop}-{a.tag + '-' if a.tag else ''}{n}")
             if confirmed:
                 os.makedirs(dst, exist_ok=True)
                 shutil.copy(diff, os.path.join(dst, "patch.diff"))
